@@ -39,6 +39,11 @@ class H5Group:
 
     @property
     def group(self):
+        if (self._group is not None and self._group
+                and not self._group.name and self.name in self._parent):
+            # the cached group was removed from the file (e.g. an emptied link
+            # list, through another handle) and has been created anew
+            self._group = self._parent[self.name]
         if self._group is None:
             if self.name in self._parent:
                 self._group = self._parent[self.name]
